@@ -1225,7 +1225,7 @@ fail:
   } while (0);
 }
 
-WUFFS_BASE__MAYBE_STATIC wuffs_base__result_f64  //
+static wuffs_base__result_f64  //
 wuffs_private_impl__high_prec_dec__to_f64(wuffs_private_impl__high_prec_dec* h,
                                           uint32_t options) {
   do {
